@@ -43,7 +43,12 @@ def replay(unit, obl):
         from checks import update_native
         return update_native.replay(unit, obl)
     from checks import runner_native
-    return runner_native.replay(unit, obl)
+    r = runner_native.replay(unit, obl)
+    if not r.get("confirmed") and "interrupt" in unit:
+        # obligations on the exceptional paths of the stage loop: faults injected into real runs (shared with C15)
+        from checks import c15_native
+        return c15_native.replay(unit, obl)
+    return r
 
 
 R_ = "tdgl.solver.runner"
